@@ -34,6 +34,9 @@ def type_bads_state(c):
             'self.optim_state["mesh_size"]', 'self.optim_state["tol_mesh"]', 'self.optim_state["search_mesh_size"]',
             "self.search_mesh_size", 'self.optim_state["search_sufficient_improvement"]', "self.f_q_historic_improvement")
     c.bools("self.reset_gp", "self.gp_refitted_flag")
+    c.arr("self.iteration_history['u']", 2, [None, "self.D"])
+    for k in ("fval", "fsd", "yval"):
+        c.arr("self.iteration_history['%s']" % k, 1, [None])
     c.arr("self.u", 1, ["self.D"])
     c.arr("self.u_best", 1, ["self.D"])
     c.arr("self.lower_bounds", 2, [1, "self.D"], ext="lo")
@@ -67,3 +70,41 @@ def inv_bads(c, ensure=True):
         if ensure:
             c.ens(k, v)
     return clauses
+
+
+FLG = "self.function_logger"
+
+
+def INC(u, y):
+    """The pair (u, y) is a logged evaluation."""
+    return ("exists(%s.Xn + 1, lambda i: pteq(row(%s.X, i), pt(%s)) and %s.Y[i][0] == %s)" % (FLG, FLG, u, FLG, y))
+
+
+def MIN(y):
+    """No logged evaluation has a strictly lower value."""
+    return "forall(%s.Xn + 1, lambda i: %s <= %s.Y[i][0])" % (FLG, y, FLG)
+
+
+LOGMAP = "forall(%s.Xn + 1, lambda i: pteq(row(%s.X_orig, i), invt(row(%s.X, i))))" % (FLG, FLG, FLG)
+DET = "self.optim_state['uncertainty_handling_level'] == 0 and not truthy(self.function_logger.he_noise_flag)"
+NOHE = "not truthy(self.function_logger.he_noise_flag)"
+
+
+LOG_GROWS = ("implies(" + NOHE + ", self.function_logger.Xn >= old(self.function_logger.Xn)) and forall(old(self.function_logger.Xn) + 1, lambda i: "
+             "pteq(row(self.function_logger.X, i), row(old(self.function_logger.X), i)) and implies(" + NOHE + ", self.function_logger.Y[i][0] == old(self.function_logger.Y)[i][0]))")
+
+
+def inv_c04(c, require=True, ensure=True, u="self.u_best", with_fsd=True):
+    """C04 invariant of the deterministic incumbent: logged, minimal, estimate == observation, zero SD."""
+    cl = {
+        "c04_incumbent_logged": "implies(%s, %s)" % (DET, INC(u, "self.yval")),
+        "c04_incumbent_minimal": "implies(%s, %s)" % (DET, MIN("self.yval")),
+        "c04_estimate_is_observation": "implies(%s, self.fval == self.yval%s)" % (DET, " and self.fsd == 0" if with_fsd else ""),
+        "c04_log_maps_back": LOGMAP,
+    }
+    for k, v in cl.items():
+        if require:
+            c.req(k, v, props=["C04", "C19"])
+        if ensure:
+            c.ens(k, v, top=(k != "c04_log_maps_back"), props=["C04", "C19"])
+    return cl
